@@ -20,7 +20,9 @@ REGISTRY = {
             'hypotheses; the union case is the known finding), and then without duplicates. The hand-written models of '
             'spans.py/digest/sequential_digest and of the regex subset are tied to /repo by correspondence (build_spans exhaustive '
             'n<=5 quick, n<=7 thorough; sequential_digest on exact output lists incl. partial/semi/mc>0 configs) and the '
-            'implementation is compared with the Lean set specification through the driver',
+            'implementation is compared with the Lean set specification through the driver; a call-sequence stage (shared '
+            'annotation / reused EnzymeConfig objects, one parameter changed between consecutive calls, returned objects edited, '
+            'interleaved generators) checks that no state leaks between calls',
     'note': 'trusted: Lean kernel, axioms propext/Classical.choice/Quot.sound, the correspondence harness, regex->sites (outside the '
             'model, compared with an independent reading of each named rule)',
     'technique': 'Lean 4 proof about executable model + differential correspondence',
@@ -425,6 +427,235 @@ def run(chk):
         return None
 
     chk.oracle('sequential_theorem_instances', plain, o_thm, nontrivial_fn=lambda c: len(c[0]) >= 3 and len(c[1]) >= 2)
+
+    # ---------------------------------------------------------------- (g) call SEQUENCES: state leaking between calls
+    # the same protein - as str and as ONE shared annotation object - digested repeatedly while one parameter changes between
+    # consecutive calls (A, A', A: both orders), reused EnzymeConfig objects, interleaved generators; every answer is compared
+    # with the Lean spec / model for THAT call's own arguments; returned lists and annotations are edited before the next
+    # call; the earliest calls are re-issued at the end
+    RT = ['span', 'str', 'annotation', 'str-span', 'annotation-span']
+    cs_rules = [nm for nm in prot_table if nm not in unmodelled] + user_rx
+
+    def gen_callseq(prot):
+        def rnd_rules():
+            return rng.sample(cs_rules, rng.choice([1, 1, 2, 3]))
+        bounds_ = [None, 1, 2, 3, 5, 8]
+        base = {'rules': rnd_rules(), 'mc': rng.randint(0, 3), 'semi': rng.random() < 0.5, 'lo': rng.choice(bounds_),
+                'hi': rng.choice(bounds_), 'comp': rng.random() < 0.6, 'rtype': rng.choice(RT), 'sort': rng.random() < 0.6}
+        cfgs = [(rng.sample(cs_rules, rng.choice([1, 1, 2])), rng.randint(0, 2), rng.random() < 0.4, rng.random() < 0.6)
+                for _ in range(3)]
+        form = lambda: rng.choice(['str', 'annot'])
+
+        def dig(p):
+            return ('digest', form(), list(p['rules']), p['mc'], p['semi'], p['lo'], p['hi'], p['comp'], p['rtype'], p['sort'])
+
+        def variant(k):
+            q = dict(base)
+            if k == 'rules':
+                q['rules'] = rnd_rules()
+            elif k == 'mc':
+                q['mc'] = (base['mc'] + rng.randint(1, 2)) % 5
+            elif k in ('semi', 'comp', 'sort'):
+                q[k] = not base[k]
+            elif k in ('lo', 'hi'):
+                q[k] = rng.choice([b for b in bounds_ if b != base[k]])
+            else:
+                q['rtype'] = rng.choice([r for r in RT if r != base['rtype']])
+            return q
+
+        calls = []
+        keys = ['rules', 'mc', 'semi', 'lo', 'hi', 'comp', 'rtype', 'sort']
+        rng.shuffle(keys)
+        for k in keys:
+            calls += [dig(base), dig(variant(k)), dig(base)]
+            x = rng.random()
+            if x < 0.35:
+                r1, r2 = rng.sample(cs_rules, 2)
+                calls += [('sites', form(), r1), ('sites', form(), r2), ('sites', form(), r1)]
+            elif x < 0.55:
+                i = rng.randrange(3)
+                calls += [('cfg', form(), i, rng.choice(bounds_), rng.choice(bounds_), rng.choice(RT), rng.random() < 0.5),
+                          ('cfg', form(), (i + 1) % 3, base['lo'], base['hi'], base['rtype'], True),
+                          ('cfg', form(), i, base['lo'], base['hi'], rng.choice(RT), True)]
+            elif x < 0.75:
+                ids = rng.sample(range(3), rng.choice([1, 2, 3]))
+                calls += [('seqd', form(), ids, rng.choice(bounds_), rng.choice(bounds_)),
+                          ('seqd', form(), list(reversed(ids)), base['lo'], base['hi'])]
+            else:
+                calls.append(('inter', form(), rng.choice(bounds_), rng.choice(bounds_), rng.choice(bounds_), rng.choice(bounds_)))
+        calls += calls[:3]
+        return (prot, cfgs, calls)
+
+    cs_prots = [''.join(t) for k in (0, 1, 2, 3) for t in itertools.product('KRPD', repeat=k)][:: (3 if tier == 'quick' else 1)]
+    cs_prots += [''.join(rng.choice(AA + 'KRPDE') for _ in range(rng.randint(4, 30))) for _ in range(60 if tier == 'quick' else 600)]
+    callseqs = [gen_callseq(p) for p in cs_prots]
+
+    # ---- expected answers, from the Lean side, in two driver batches
+    def site_line(r, text):
+        return f'sites_named\t{r}\t{text}' if r in prot_table else f'sites_pattern\t{pat_wire(r)}\t{text}'
+
+    l1 = {}
+    for prot, cfgs, calls in callseqs:
+        n = len(prot)
+        for c in calls:
+            if c[0] == 'digest':
+                for r in c[2]:
+                    l1[site_line(r, prot)] = None
+            elif c[0] == 'sites':
+                l1[site_line(c[2], prot)] = None
+            elif c[0] == 'cfg':
+                for r in cfgs[c[2]][0]:
+                    l1[site_line(r, prot)] = None
+            elif c[0] == 'seqd':
+                w = '|'.join('&'.join(rule_wire(r) for r in cfgs[i][0]) + f'@{cfgs[i][1]}@{int(cfgs[i][2])}@{int(cfgs[i][3])}'
+                             for i in c[2])
+                l1[f'seq\t{prot}\t{w}\t{opt(c[3])}\t{opt(c[4])}'] = None
+            else:
+                l1[f'left\t0:{n}:0\t{opt(c[2])}\t{opt(c[3])}'] = None
+                l1[f'right\t0:{n}:0\t{opt(c[2])}\t{opt(c[3])}'] = None
+                l1[f'nonenz\t0:{n}:0\t{opt(c[4])}\t{opt(c[5])}'] = None
+    k1 = list(l1)
+    l1 = dict(zip(k1, chk.driver(DRV, k1)))
+
+    def spec_line_for(prot, rules, mc, semi, lo, hi):
+        sites = []
+        for r in rules:
+            sites += [x for x in l1[site_line(r, prot)].split(',') if x]
+        return f'spec\t{len(prot)}\t{",".join(sites)}\t{mc}\t{opt(lo)}\t{opt(hi)}\t{int(semi)}'
+
+    l2 = {}
+    for prot, cfgs, calls in callseqs:
+        for c in calls:
+            if c[0] == 'digest':
+                l2[spec_line_for(prot, c[2], c[3], c[4], c[5], c[6])] = None
+            elif c[0] == 'cfg':
+                rs, mc, semi, comp = cfgs[c[2]]
+                l2[spec_line_for(prot, rs, mc, semi, c[3], c[4])] = None
+    k2 = list(l2)
+    l2 = dict(zip(k2, chk.driver(DRV, k2)))
+
+    def parse_spans(t):
+        return [tuple(int(x) for x in u.split(':')) for u in t.split(';') if u]
+
+    def canon(res, rtype):
+        """result of a digest-like call -> comparable list; annotations are serialised"""
+        raw = res
+        res = list(res)
+        if rtype == 'annotation':
+            return [a.serialize() for a in res], [raw] + res
+        if rtype == 'annotation-span':
+            return [(a.serialize(), sp) for a, sp in res], [raw] + [a for a, _ in res]
+        return res, [raw]
+
+    def proj(prot, spans_, rtype):
+        if rtype == 'span':
+            return list(spans_)
+        if rtype in ('str', 'annotation'):
+            return [prot[a:b] for a, b, _ in spans_]
+        return [(prot[a:b], (a, b, v)) for a, b, v in spans_]
+
+    def scribble(raw, annots):
+        # edit what was handed out: a later call must not see it
+        # annots[0] is the object the function itself returned (a generator today; a list if one is ever handed out)
+        for a in annots[1:4]:
+            try:
+                a.add_nterm_mods('Acetyl')
+                a.add_internal_mod(0, 'Oxidation')
+            except Exception:  # noqa
+                pass
+        for obj in (annots[0], raw):
+            try:
+                obj.append(('ZZZ', (9, 9, 9)))
+                obj.reverse()
+            except Exception:  # noqa
+                pass
+
+    def o_callseq(case):
+        prot, cfgs, calls = case
+        n = len(prot)
+        A = digestion.sequence_to_annotation(prot)
+        C = [digestion.EnzymeConfig(list(rs), mc, semi, comp) for rs, mc, semi, comp in cfgs]
+        for idx, c in enumerate(calls):
+            seq_arg = prot if c[1] == 'str' else A
+            where = f'call #{idx} {c!r} (after {calls[max(0, idx - 2):idx]!r})'
+            if c[0] == 'digest':
+                _, _, rules, mc, semi, lo, hi, comp, rtype, srt = c
+                rl = list(rules)
+                got, annots = canon(digestion.digest(seq_arg, rl, mc, semi, lo, hi, comp, rtype, srt), rtype)
+                exp = set(parse_spans(l2[spec_line_for(prot, rules, mc, semi, lo, hi)]))
+                if not comp:
+                    exp.add((0, n, 0))
+                exp = proj(prot, sorted(exp), rtype)
+                if (got if srt else sorted(got)) != (exp if srt else sorted(exp)):
+                    return f'{where}: got {got} expected {exp}'
+                if rl != list(rules):
+                    return f'{where}: the rule list argument was modified: {rl}'
+                scribble(got, annots)
+                rl.append('trypsin')
+            elif c[0] == 'sites':
+                raw_sites = digestion.get_cleavage_sites(seq_arg, c[2])
+                got = list(raw_sites)
+                exp = [int(x) for x in l1[site_line(c[2], prot)].split(',') if x]
+                if got != exp:
+                    return f'{where}: got {got} expected {exp}'
+                if hasattr(raw_sites, 'append'):
+                    raw_sites.append(-1)
+            elif c[0] == 'cfg':
+                _, _, i, lo, hi, rtype, srt = c
+                rs, mc, semi, comp = cfgs[i]
+                got, annots = canon(digestion.digest_from_config(seq_arg, C[i], lo, hi, rtype, srt), rtype)
+                exp = set(parse_spans(l2[spec_line_for(prot, rs, mc, semi, lo, hi)]))
+                if not comp:
+                    exp.add((0, n, 0))
+                exp = proj(prot, sorted(exp), rtype)
+                if (got if srt else sorted(got)) != (exp if srt else sorted(exp)):
+                    return f'{where}: got {got} expected {exp}'
+                scribble(got, annots)
+            elif c[0] == 'seqd':
+                _, _, ids, lo, hi = c
+                w = '|'.join('&'.join(rule_wire(r) for r in cfgs[i][0]) + f'@{cfgs[i][1]}@{int(cfgs[i][2])}@{int(cfgs[i][3])}'
+                             for i in ids)
+                raw_seq = digestion.sequential_digest(seq_arg, [C[i] for i in ids], lo, hi, 'span')
+                got = list(raw_seq)
+                exp = parse_spans(l1[f'seq\t{prot}\t{w}\t{opt(lo)}\t{opt(hi)}'])
+                if got != exp:
+                    return f'{where}: got {got} expected {exp}'
+                if hasattr(raw_seq, 'clear'):
+                    raw_seq.clear()
+            else:
+                _, _, lo, hi, lo2, hi2 = c
+                gens = [digestion.get_left_semi_enzymatic_sequences(seq_arg, lo, hi, 'span'),
+                        digestion.get_semi_enzymatic_sequences(seq_arg, lo, hi, 'span'),
+                        digestion.get_non_enzymatic_sequences(seq_arg, lo2, hi2, 'span'),
+                        digestion.get_right_semi_enzymatic_sequences(seq_arg, lo, hi, 'span'),
+                        spans.build_spans(n, [1, 1, n], 1, lo, hi, True),
+                        spans.build_spans(n, [1, 1, n], 1, lo, hi, False)]
+                outs = [[] for _ in gens]
+                live = list(range(len(gens)))
+                while live:      # round robin: the generators are advanced interleaved
+                    for j in list(live):
+                        try:
+                            outs[j].append(next(gens[j]))
+                        except StopIteration:
+                            live.remove(j)
+                le = parse_spans(l1[f'left\t0:{n}:0\t{opt(lo)}\t{opt(hi)}'])
+                ri = parse_spans(l1[f'right\t0:{n}:0\t{opt(lo)}\t{opt(hi)}'])
+                ne = parse_spans(l1[f'nonenz\t0:{n}:0\t{opt(lo2)}\t{opt(hi2)}'])
+                for nm_, g_, e_ in (('left', outs[0], le), ('semi', outs[1], le + ri), ('nonenz', outs[2], ne), ('right', outs[3], ri)):
+                    if g_ != e_:
+                        return f'{where}: interleaved {nm_} generator gave {g_} expected {e_}'
+                if sorted(outs[4]) != sorted(set(spans.build_spans(n, [1, n], 1, lo, hi, True))) or \
+                        outs[5] != list(spans.build_spans(n, [1, n], 1, lo, hi, False)):
+                    return f'{where}: interleaved build_spans generators differ from fresh ones'
+            if A.serialize() != prot:
+                return f'{where}: the shared annotation argument was modified: {A.serialize()!r}'
+            for i, (rs, mc, semi, comp) in enumerate(cfgs):
+                if (list(C[i].regex), C[i].missed_cleavages, C[i].semi_enzymatic, C[i].complete_digestion) != (list(rs), mc, semi, comp):
+                    return f'{where}: the reused EnzymeConfig #{i} was modified'
+        return None
+
+    chk.oracle('call_sequences', callseqs, o_callseq, nontrivial_fn=lambda c: len(c[0]) >= 3)
+    chk.count('call_sequence_calls', sum(len(c[2]) for c in callseqs))
 
     return chk.finish(classify)
 
